@@ -94,6 +94,8 @@ def configs_for(prop, tier):
             c += ABACUS_QUICK
         if prop in INTEGER_ONLY:
             c += [cfg('g++', '-Os', 'c++20', extra=['-ffast-math'], tag='gcc-Os-c++20-fastmath')]
+        if prop == 'C05':   # finite inputs only are judged in this configuration (props_conv.cc)
+            c += [cfg('g++', '-O2', 'c++20', extra=['-ffast-math'], tag='gcc-O2-c++20-fastmath')]
         if prop == 'C08':
             c += [cfg('clang++', '-O0', 'c++20'), cfg('g++', '-O3', 'c++2b')]
     else:
